@@ -6,5 +6,5 @@ Extraction Language OCaml.
 Extraction "model_c19.ml"
   Recognise.user_input Recognise.parse_formatted_number Recognise.is_ws Recognise.to_upper
   Recognise.upper_char Recognise.p_commas
-  RecogniseSpec.spec_recognise RecogniseSpec.agrees RecogniseSpec.known_class
+  RecogniseSpec.spec_recognise RecogniseSpec.spec_stored RecogniseSpec.agrees RecogniseSpec.known_class
   Locales_c19.locales Locales_c19.languages.
